@@ -559,6 +559,10 @@ func (ev *Ev) binary(x *ast.BinaryExpr) Value {
 			ev.st.pc = append(ev.st.pc, not(a.T))
 		}
 		mark := len(ev.st.pc)
+		heapBefore := make(map[string]string, len(ev.st.heap))
+		for k, v := range ev.st.heap {
+			heapBefore[k] = v
+		}
 		b := ev.expr(x.Y)
 		// any assumptions added while evaluating the RHS (e.g. callee ensures) are kept as implications
 		extra := append([]string(nil), ev.st.pc[mark:]...)
@@ -566,6 +570,24 @@ func (ev *Ev) binary(x *ast.BinaryExpr) Value {
 		ev.st.pc = ev.st.pc[:saved]
 		for _, h := range extra {
 			ev.st.pc = append(ev.st.pc, implies(guard, h))
+		}
+		// state changes made by the RHS happen only when it is evaluated: otherwise every family keeps its version
+		for _, k := range sortedKeys(ev.st.heap) {
+			nv := ev.st.heap[k]
+			ov, had := heapBefore[k]
+			if had && ov == nv {
+				continue
+			}
+			if !had {
+				ev.u.eng.mu.Lock()
+				srt, ok := ev.u.eng.famSorts[k]
+				ev.u.eng.mu.Unlock()
+				if !ok {
+					continue
+				}
+				ov = ev.u.fam(&State{heap: map[string]string{}}, k, srt)
+			}
+			ev.st.pc = append(ev.st.pc, implies(not(guard), app("=", nv, ov)))
 		}
 		if x.Op == token.LAND {
 			return boolV(and(a.T, b.T))
